@@ -163,7 +163,7 @@ Theorem T09_datetime_normalize_fields : forall negate tzh tzm v,
   (1 <= n_d v <= max_day (n_y v) (n_mo v))%Z -> (0 <= n_h v <= 24)%Z -> (0 <= n_mi v <= 59)%Z ->
   let r := normalize negate tzh tzm v in
   (secs_of r = secs_of v + negate * (tzh * 60 + tzm) * 60 /\
-   1 <= n_mo r <= 12 /\ 1 <= n_d r <= max_day (n_y r) (n_mo r) /\ 0 <= n_h r <= 23 /\ 0 <= n_mi r <= 59 /\ n_s r = n_s v)%Z.
+   1 <= n_mo r <= 12 /\ 1 <= n_d r <= max_day (n_y r) (n_mo r) /\ 0 <= n_h r <= 23 /\ 0 <= n_mi r <= 59 /\ n_s r = n_s v /\ 1 <= n_y r)%Z.
 Proof. exact normalize_timeline. Qed.
 Print Assumptions T09_datetime_normalize_fields.
 
@@ -182,3 +182,188 @@ Example T09_nonvacuous_normalize :       (* 2001-11-30T23:30:00-02:00  ->  2001-
   normalize 1 14 0 (mkN 2001 12 31 23 30 0) = mkN 2002 1 1 13 30 0 /\
   normalize (-1) 14 0 (mkN 2000 3 1 0 30 0) = mkN 2000 2 29 10 30 0.
 Proof. vm_compute. repeat split; reflexivity. Qed.
+
+(** ** dateTime: order *)
+From Coq Require Import String.
+From XV Require Import C09.Proofs09j C09.Proofs09k.
+Local Open Scope string_scope.
+Local Open Scope N_scope.
+
+(** compareOrder (field by field, then the fraction) on in-range values = comparison of the instants *)
+Theorem T09_datetime_compare_fields : forall a fa b fb, in_range a -> in_range b ->
+  all_digits fa = true -> all_digits fb = true -> compare_order a fa b fb = q_cmp (tl a fa) (tl b fb).
+Proof. exact compare_order_spec. Qed.
+Print Assumptions T09_datetime_compare_fields.
+
+(** XMLDateTime::compare on two parsed (validated, normalised) values is the order relation of 3.2.7.4 on their
+    timelines: EQUAL iff same instant, LESS/GREATER, and for a zoned against an unzoned value INDETERMINATE exactly
+    inside the +-14 h window -- outside finding F30 (the two values are exactly 14 h apart), F31 (hour 24) and F32
+    (year 0001/negative years), which [dtp_ok] and the hypothesis exclude *)
+Theorem T09_datetime_order : forall a b, dtp_ok a -> dtp_ok b ->
+  (p_zoned a <> p_zoned b ->
+     ~ Qeq (timeline (spec_fields a)) (timeline (spec_fields b) + h14) /\
+     ~ Qeq (timeline (spec_fields a)) (timeline (spec_fields b) - h14)) ->
+  dt_compare a b = dt_order_f (spec_fields a) (spec_fields b).
+Proof. exact dt_compare_spec. Qed.
+Print Assumptions T09_datetime_order.
+
+(** parse + validateDateTime + normalize deliver such values (years >= 2, hour not 24) *)
+Theorem T09_datetime_parse_ok : forall b v p, dt_parse true b = Some v -> dt_parse_norm true b = Some p ->
+  (2 <= dt_year v)%Z -> n_h (p_n p) <> 24%Z -> dtp_ok p.
+Proof. exact parse_norm_ok. Qed.
+Print Assumptions T09_datetime_parse_ok.
+
+(** the excluded classes are genuine: findings F30, F31, F32 on the faithful model against the Spec *)
+Theorem T09_datetime_f30_refuted :
+  dtv_compare true (s2l "2000-01-01T12:00:00") (s2l "2000-01-01T12:00:00+14:00") = 0%Z /\
+  dt_order (s2l "2000-01-01T12:00:00") (s2l "2000-01-01T12:00:00+14:00") = 2%Z /\
+  dtv_compare true (s2l "1999-12-31T22:00:00Z") (s2l "2000-01-01T12:00:00") = 0%Z /\
+  dt_order (s2l "1999-12-31T22:00:00Z") (s2l "2000-01-01T12:00:00") = 2%Z.
+Proof. exact f30_refuted. Qed.
+Print Assumptions T09_datetime_f30_refuted.
+Theorem T09_datetime_f31_refuted :
+  dtv_compare true (s2l "2000-01-01T24:00:00") (s2l "2000-01-02T00:00:00") = (-1)%Z /\
+  dt_order (s2l "2000-01-01T24:00:00") (s2l "2000-01-02T00:00:00") = 0%Z /\
+  dt_canon true (s2l "2000-01-01T24:00:00") = Some (s2l "2000-01-01T00:00:00") /\
+  dt_canon_of (s2l "2000-01-01T24:00:00") (s2l "2000-01-01T00:00:00") = false.
+Proof. exact f31_refuted. Qed.
+Print Assumptions T09_datetime_f31_refuted.
+Theorem T09_datetime_f32_refuted :
+  dt_canon true (s2l "0001-01-01T05:00:00+14:00") = Some (s2l "0000-12-31T15:00:00Z") /\
+  dt_lex (s2l "0000-12-31T15:00:00Z") = false /\ dt_canon true (s2l "0000-12-31T15:00:00Z") = None.
+Proof. exact f32_refuted. Qed.
+Print Assumptions T09_datetime_f32_refuted.
+Example T09_nonvacuous_datetime_order :
+  match dt_parse_norm true (s2l "2001-11-30T23:30:00.5-02:00"), dt_parse_norm true (s2l "2001-12-01T01:30:00.50Z") with
+  | Some a, Some b => dt_compare a b = 0%Z /\ p_n a = mkN 2001 12 1 1 30 0
+  | _, _ => False
+  end.
+Proof. exact order_nonvacuous. Qed.
+
+(** ** decimal bounds; hexBinary; base64Binary; list and union *)
+From XV Require Import C09.Spec09f C09.Model09f C09.Proofs09l C09.Proofs09m C09.Proofs09n C09.Proofs09o.
+Local Open Scope N_scope.
+
+(** boundsCheck accepts exactly the values inside the bounds, for every combination of present/absent
+    minInclusive, minExclusive, maxInclusive, maxExclusive (the record [f] ranges over all 16) *)
+Theorem T09_bounds : forall f d, dec_norm d ->
+  opt_norm (f_maxE f) -> opt_norm (f_maxI f) -> opt_norm (f_minI f) -> opt_norm (f_minE f) ->
+  (bounds_check f d = None <-> bounds_spec f d = true).
+Proof. exact bounds_check_spec. Qed.
+Print Assumptions T09_bounds.
+
+(** hexBinary: accepted iff in the lexical space, for every string of code units; the length facet counts octets;
+    the canonical form is canonical, value preserving and idempotent *)
+Theorem T09_hex : forall s, hex_ok s = hex_lex s.
+Proof. exact hex_ok_lex. Qed.
+Print Assumptions T09_hex.
+Theorem T09_hex_length : forall s, hex_length s = match hex_value s with Some v => Some (length v) | None => None end.
+Proof. exact hex_length_spec. Qed.
+Print Assumptions T09_hex_length.
+Theorem T09_hex_canon : forall s c, hex_canon s = Some c ->
+  hex_is_canonical c = true /\ hex_value c = hex_value s /\ hex_canon c = Some c.
+Proof. exact hex_canon_spec. Qed.
+Print Assumptions T09_hex_canon.
+
+(** base64Binary (Conf_Schema, code at HEAD = fix12, fix12b): for every non-empty string, decode succeeds iff the string
+    is in the lexical space of the errata grammar; the octets are the Spec's and the canonical data is the literal
+    without its spaces *)
+Theorem T09_base64 : forall s, s <> [] ->
+  match b64_decode true true true s with
+  | Some (v, q) => b64_value s = Some v /\ despace false s = Some q
+  | None => b64_value s = None
+  end.
+Proof. exact b64_decode_spec. Qed.
+Print Assumptions T09_base64.
+Theorem T09_base64_lex : forall s, s <> [] ->
+  ((exists v q, b64_decode true true true s = Some (v, q)) <-> b64_lex s = true).
+Proof. exact b64_lex_iff. Qed.
+Print Assumptions T09_base64_lex.
+
+(** list: every item valid and the length facets count items; union: some member accepts; lists of unions *)
+Theorem T09_list : forall item len_ok s,
+  list_check item len_ok (ws_collapse s) = true <->
+  Forall (fun t => item t = true) (tokens (ws_collapse s)) /\ len_ok (length (tokens (ws_collapse s))) = true.
+Proof. exact list_check_forall. Qed.
+Print Assumptions T09_list.
+Theorem T09_list_items : forall l, Forall (fun t => t <> [] /\ forallb (fun c => negb (c =? ch_space)) t = true) (tokens l).
+Proof. exact tokens_items. Qed.
+Print Assumptions T09_list_items.
+Theorem T09_union : forall members s, union_check members s = true <-> exists m, In m members /\ m s = true.
+Proof. exact union_check_exists. Qed.
+Print Assumptions T09_union.
+Theorem T09_list_of_union : forall members len_ok s,
+  list_check (union_check members) len_ok (ws_collapse s) = true <->
+  Forall (fun t => exists m, In m members /\ m t = true) (tokens (ws_collapse s)) /\ len_ok (length (tokens (ws_collapse s))) = true.
+Proof. exact list_of_union. Qed.
+Print Assumptions T09_list_of_union.
+
+(** ** float / double: lexical space and special values *)
+From XV Require Import C09.Proofs09p.
+Local Open Scope N_scope.
+
+(** XMLAbstractDoubleFloat::init accepts a string iff, trimmed, it is in the lexical space of xs:double/xs:float
+    (decimal mantissa, optional E/e + integer exponent, or INF, -INF, NaN) -- or it is '+.' / '-.' (finding F33).
+    strtod's "whole string consumed" is modelled by its grammar over the filtered alphabet; values are not modelled *)
+Theorem T09_float_lex : forall s, float_init s = float_lex (trim_ws s) || f33 (trim_ws s).
+Proof. exact float_init_spec. Qed.
+Print Assumptions T09_float_lex.
+Theorem T09_float_lex_guarded : forall s, f33 (trim_ws s) = false -> float_init s = float_lex (trim_ws s).
+Proof. exact float_lex_guarded. Qed.
+Print Assumptions T09_float_lex_guarded.
+Theorem T09_float_f33_refuted :
+  float_init [ch_minus; ch_dot] = true /\ float_lex [ch_minus; ch_dot] = false /\
+  float_init [ch_plus; ch_dot] = true /\ float_lex [ch_plus; ch_dot] = false /\ float_init [ch_dot] = false.
+Proof. exact f33_refuted. Qed.
+Print Assumptions T09_float_f33_refuted.
+Theorem T09_float_special : forall a b, ~ (a = K_Finite /\ b = K_NaN) -> float_cmp_special a b = special_order a b.
+Proof. exact float_special_order. Qed.
+Print Assumptions T09_float_special.
+Theorem T09_float_f34_refuted : float_cmp_special K_Finite K_NaN = Some (-2)%Z /\ special_order K_Finite K_NaN = Some 2%Z.
+Proof. exact f34_refuted. Qed.
+Print Assumptions T09_float_f34_refuted.
+
+(** ** decimal: canonical representation and digit facets *)
+From XV Require Import C09.Proofs09q C09.Proofs09r.
+
+(** XMLBigDecimal::getCanonicalRepresentation: the result is a canonical literal (3.2.3.2) of the lexical space, denotes
+    the value of the input, and is its own canonical representation *)
+Theorem T09_decimal_canon : forall fix10 s d, dec_parse_raw fix10 s = Ok d ->
+  let c := dec_canon_of d in
+  dec_is_canonical c = true /\ dec_lex c = true /\ Qeq (dec_value c) (dec_value (trim_ws s)) /\ dec_canon true c = Some c.
+Proof. exact dec_canon_spec. Qed.
+Print Assumptions T09_decimal_canon.
+
+(** equal values have equal normalised fields (hence equal canonical forms) *)
+Theorem T09_decimal_unique : forall a b, dec_norm a -> dec_norm b -> dec_cmp a b = 0%Z -> a = b.
+Proof. exact cmp_zero_eq. Qed.
+Print Assumptions T09_decimal_unique.
+
+(** totalDigits / fractionDigits: the tests `fTotalDigits > totalDigits || fScale > totalDigits` and
+    `fScale > fractionDigits` of checkContent decide the definitions of 4.3.11 / 4.3.12 (E2-44) on the value:
+    expressible as i * 10^-n with |i| < 10^totalDigits and n <= totalDigits, resp. n <= fractionDigits *)
+Theorem T09_decimal_digits : forall d td fd, dec_norm d ->
+  (((td <? d_total d)%nat || (td <? d_scale d)%nat = false) <-> total_digits_ok (dec_denote d) td) /\
+  ((fd <? d_scale d)%nat = false <-> fraction_digits_ok (dec_denote d) fd).
+Proof. exact digits_checks. Qed.
+Print Assumptions T09_decimal_digits.
+Theorem T09_decimal_scale_minimal : forall d i n, dec_norm d -> Qeq (dec_denote d) (i # pow10 n) ->
+  (d_scale d <= n)%nat /\ i = (d_sign d * dval (d_digits d) * P10 (n - d_scale d))%Z.
+Proof. exact scale_minimal. Qed.
+Print Assumptions T09_decimal_scale_minimal.
+
+(** ** dateTime: field ranges *)
+From XV Require Import C09.Proofs09s.
+
+(** validateDateTime (seconds <= 59) accepts exactly the field ranges of 3.2.7; maxDayInMonthFor = days of the month *)
+Theorem T09_datetime_valid : forall v, (0 <= dt_day v)%Z -> (0 <= dt_hour v)%Z -> (0 <= dt_min v)%Z -> (0 <= dt_sec v)%Z ->
+  (0 <= dt_tzh v)%Z -> (0 <= dt_tzm v)%Z -> (dt_validate true v = true <-> fields_valid v).
+Proof. exact validate_spec. Qed.
+Print Assumptions T09_datetime_valid.
+Theorem T09_datetime_maxday_all : forall y m, max_day y m = days_in_month y m.
+Proof. exact max_day_all_years. Qed.
+Print Assumptions T09_datetime_maxday_all.
+(** every dateTime literal the parser accepts has fields in range (soundness half of the lexical theorem) *)
+Theorem T09_datetime_lex_fields_partial : forall b v, dt_parse true b = Some v -> fields_valid v.
+Proof. exact parsed_fields_valid. Qed.
+Print Assumptions T09_datetime_lex_fields_partial.
